@@ -71,6 +71,21 @@ class Item:
         return "I%r#%r%s" % (self.key, self.uid, "" if self.truth else "f")
 
 
+class Entity:
+    """A plain object without __eq__: identity is its equality"""
+
+    __slots__ = ("n",)
+
+    def __init__(self, n):
+        self.n = n
+
+    def __repr__(self):
+        return "Entity%d" % self.n
+
+
+_ENTITIES = tuple(Entity(n) for n in range(8))
+
+
 class PairIterable:
     """A (key, value) pair that can be iterated - so it unpacks - but not indexed"""
 
@@ -158,6 +173,8 @@ def ident(x):
         return ("awaitable_item", x.uid)
     if t is TolerantKey:
         return ("tol", x.v)
+    if t is Entity:
+        return ("entity", x.n)
     if t is decimal.Decimal or t is fractions.Fraction:
         return (t.__name__, str(x))
     if t is PairIterable:
@@ -864,6 +881,9 @@ def _behave(kind, param, args, feed):
         return (uid if type(uid) is int else 0) % 3
     if kind == "tol":
         return TolerantKey(keyof(args[0]))
+    if kind == "idobj":
+        # keys that are plain objects: equal only to themselves (the entity a record refers to)
+        return _ENTITIES[keyof(args[0]) % len(_ENTITIES)]
     if kind == "mixnum":
         # keys of mixed numeric kinds that order fine among each other (Decimal is not a numbers.Real)
         k = keyof(args[0])
